@@ -398,6 +398,70 @@ func (vc *VC) errTextAxioms() {
 	vc.used["error text model: errors.New literals exact; fmt.Errorf contains a needle if its format literal or a %w/%v/%s error argument does (positive direction only)"] = true
 }
 
+// ---- suffix model of strings: `suffix$L(s)` (s ends with the literal L) for the literals L that the code
+// (strings.HasSuffix) or a contract (hassuffix) asks about.  Facts: literals exactly; fmt.Sprintf with a literal format
+// from the text behind its last verb (or, when the format ends with %s, from that argument).
+type sprintfRec struct {
+	term   string
+	format string
+	args   []string
+}
+
+func (vc *VC) suffixTerm(lit, s string) string {
+	fnm := "suffix$" + lit
+	vc.declareFun(fnm, []string{"Int"}, "Bool")
+	return app(smtName(fnm), s)
+}
+
+func (vc *VC) suffixAxioms() {
+	var lits []string
+	for name := range vc.declared {
+		if strings.HasPrefix(name, "suffix$") {
+			lits = append(lits, strings.TrimPrefix(name, "suffix$"))
+		}
+	}
+	if len(lits) == 0 {
+		return
+	}
+	sort.Strings(lits)
+	for _, L := range lits {
+		fn := smtName("suffix$" + L)
+		if L != "" {
+			vc.addAxiom(sNot(app(fn, "0")))
+		}
+		for _, str := range vc.strList {
+			t := app(fn, vc.strConst(str))
+			if strings.HasSuffix(str, L) {
+				vc.addAxiom(t)
+			} else {
+				vc.addAxiom(sNot(t))
+			}
+		}
+		for _, sp := range vc.sprintfs {
+			lit, verbs := splitFormat(sp.format)
+			tail := lit
+			if i := strings.LastIndexByte(lit, 0); i >= 0 {
+				tail = lit[i+1:]
+			}
+			t := app(fn, sp.term)
+			switch {
+			case len(tail) >= len(L):
+				if strings.HasSuffix(tail, L) {
+					vc.addAxiom(t)
+				} else {
+					vc.addAxiom(sNot(t))
+				}
+			case tail == "" && len(verbs) > 0 && verbs[len(verbs)-1] == 's' && len(verbs) == len(sp.args):
+				vc.declareFun("unbox$Int", []string{"Int"}, "Int")
+				vc.addAxiom(sEq(t, app(fn, app(smtName("unbox$Int"), app("i.val", sp.args[len(verbs)-1])))))
+			case len(tail) > 0 && !strings.HasSuffix(L, tail):
+				vc.addAxiom(sNot(t))
+			}
+		}
+	}
+	vc.used["string suffix model: literals exact; fmt.Sprintf decided by the literal text behind its last verb, or equal to its last %s argument when the format ends with it"] = true
+}
+
 // splitFormat: the literal text of a format string (verbs replaced by \x00) and the verb letters in order.
 func splitFormat(format string) (string, []byte) {
 	var lit []byte
